@@ -161,6 +161,9 @@ class Registry:
     def closure_value(self, ex, st, stmt):
         return V("static", None, Marker("closure", stmt))
 
+    def comp_source_hook(self, ex, st, target, src, j):
+        return None
+
     def at_exit(self, ex, st):
         """Called on every exit path of a unit before its postconditions are generated."""
 
